@@ -89,7 +89,74 @@ def run_shard(shard):
             check_delete(st, doc0, text, shp, ("collector", operands), ctext)
         if di == lo:
             st.sample({"doc": text, "op": "delete", "path": PLIST[9][1]})
+    if lo == 0:
+        merge_family(st)
     return st
+
+
+# documents with YAML merge keys and anchors that are spelled like keys:
+# (text, path, the plain data expected afterwards)
+_T1 = ("port: &port {n: 1}\nbase: &base {x: 1}\nweb:\n  <<: *base\n"
+       "  port: 8080\n  y: 2\n")
+_T2 = ("hosts: &port [a]\nbase: &base {x: 1}\nweb:\n  <<: *base\n"
+       "  port: 8080\n  base: 5\n")
+MERGE_CASES = [
+    (_T1, "/web/port", {"port": {"n": 1}, "base": {"x": 1},
+                        "web": {"x": 1, "y": 2}}),
+    (_T1, "/web/y", {"port": {"n": 1}, "base": {"x": 1},
+                     "web": {"x": 1, "port": 8080}}),
+    (_T1, "/port", {"base": {"x": 1}, "web": {"x": 1, "port": 8080, "y": 2}}),
+    (_T1, "/port/n", {"port": {}, "base": {"x": 1},
+                      "web": {"x": 1, "port": 8080, "y": 2}}),
+    (_T1, "/web/&base", {"port": {"n": 1}, "base": {"x": 1},
+                         "web": {"port": 8080, "y": 2}}),
+    (_T1, "/web[.^p]", {"port": {"n": 1}, "base": {"x": 1},
+                        "web": {"x": 1, "y": 2}}),
+    (_T2, "/web/port", {"hosts": ["a"], "base": {"x": 1},
+                        "web": {"x": 1, "base": 5}}),
+    (_T2, "/web/base", {"hosts": ["a"], "base": {"x": 1},
+                        "web": {"x": 1, "port": 8080}}),
+    (_T2, "/web/&base", {"hosts": ["a"], "base": {"x": 1},
+                         "web": {"port": 8080, "base": 5}}),
+    (_T2, "/hosts", {"base": {"x": 1},
+                     "web": {"x": 1, "port": 8080, "base": 5}}),
+]
+
+
+def _plain(node):
+    if corpus.is_map(node):
+        return {str(k): _plain(v) for k, v in node.items()}
+    if corpus.is_list(node):
+        return [_plain(v) for v in node]
+    val = corpus.plain_scalar(node)
+    return val[1] if isinstance(val, tuple) and len(val) == 2 else val
+
+
+def merge_family(st):
+    for text, ptext, want in MERGE_CASES:
+        st.evaluations += 1
+        doc = corpus.load(text)
+        case = {"doc": text, "op": "delete", "path": ptext, "segs": None,
+                "merge_case": True}
+        res, detail = editrun.apply_delete(doc, ptext)
+        st.transitions += 1
+        st.validated += 1
+        st.outcomes[res if res != "ype" else "ype:" + detail] += 1
+        if res != "ok":
+            st.fail("delete|merge-key-document|%s:%s" % (res, detail), case,
+                    repr(want), "%s %s" % (res, detail))
+            continue
+        st.states += 1
+        st.sig("merge-key-document", ptext)
+        got = _plain(doc)
+        if got != want:
+            st.fail("delete|merge-key-document|wrong-result", case,
+                    repr(want), repr(got))
+            continue
+        bad = editrun.reload_check(doc)
+        if bad:
+            st.fail("delete|merge-key-document|reload", case,
+                    "dump reloads to the same data", bad)
 
 
 def model(doc0, segs):
@@ -180,6 +247,14 @@ def check_delete(st, doc0, text, shp, segs, ptext):
 
 def replay(case):
     st = core.Stats(None)
+    if case.get("merge_case"):
+        merge_family(st)
+        for lst in st.fails.values():
+            for f in lst:
+                if f["case"]["path"] == case["path"] and \
+                        f["case"]["doc"] == case["doc"]:
+                    return f
+        return None
     doc = corpus.load(case["doc"])
     segs = C01.tup(case["segs"])
     check_delete(st, doc, case["doc"], "?", segs, case["path"])
